@@ -6,6 +6,7 @@
   count-prefixed vectors; serialiser = Spec bytes under the field ranges).  Marked DUP below.
 -/
 import BtcVerif.Model.Messages
+import BtcVerif.Proofs.CryptoLen
 import BtcVerif.Spec.Chain
 import Mathlib.Tactic.IntervalCases
 import Mathlib.Tactic.NormNum
@@ -179,7 +180,22 @@ end BtcVerif
 namespace BtcVerif
 open Model.Wire Spec.Wire Model.Msg Spec.Msg
 
-theorem checksum_eq (p : Bytes) : Model.Msg.checksum p = Spec.Msg.checksum p := rfl
+/-- applying SHA-256 twice (as the Python does, through two `hashlib` objects) is SHA-256d -/
+theorem sha256_sha256 (p : Bytes) : Crypto.sha256 (Crypto.sha256 p) = Crypto.hash256 p := by
+  simp [Crypto.sha256, Crypto.hash256]
+
+/-- the model's `h[:4]` of two chained SHA-256 calls is the Spec's checksum -/
+theorem checksum_eq (p : Bytes) : Model.Msg.checksum p = Spec.Msg.checksum p := by
+  simp [Model.Msg.checksum, Spec.Msg.checksum, sha256_sha256]
+
+/-- SHA-256d digests have 32 bytes (Proofs/CryptoLen.lean), so the checksum field has 4 -/
+theorem checksumLen : ChecksumLen := by
+  intro p
+  simp [Spec.Msg.checksum, Crypto.hash256_length]
+
+/-- the model's own command constants are the Spec's -/
+theorem command_eq (m : Msg) : Model.Msg.command m = Spec.Msg.command m := by
+  cases m <;> (simp only [Model.Msg.command, Spec.Msg.command]; decide)
 
 /-! ### frame level -/
 
@@ -201,8 +217,17 @@ theorem takeWhile_commandField (c : Bytes) (hz : ∀ b ∈ c, b ≠ 0) (k : Nat)
     simp only [if_true]
     rw [ih']
 
+/-- for a name of at most 12 bytes, "name then NULs up to 12" is what the Python builds:
+    `command + b"\x00" * (12 - len(command))` -/
+theorem commandField_eq (c : Bytes) (h : c.length ≤ 12) :
+    commandField c = c ++ List.replicate (12 - c.length) 0 := by
+  unfold commandField
+  rw [List.take_append, List.take_of_length_le h, List.take_replicate]
+  congr 2
+  omega
+
 theorem commandField_length (c : Bytes) (h : c.length ≤ 12) : (commandField c).length = 12 := by
-  simp [commandField]; omega
+  simp [commandField_eq c h]; omega
 
 /-- the 24 header bytes split back into their four fields -/
 theorem header_fields (a b c d : Bytes) (ha : a.length = 4) (hb : b.length = 12) (hc : c.length = 4)
@@ -322,7 +347,7 @@ theorem streamDeserialize_frame (hck : ChecksumLen) (magic cmd payload rest : By
       (payload ++ rest)).drop (24 + payload.length) = rest := by
     rw [← List.drop_drop, g5, List.drop_left' rfl]
   simp only [ne_eq, not_true_eq_false, if_false, h1, h2, h3, h4, checksum_eq]
-  rw [commandField, takeWhile_commandField cmd hz]
+  rw [commandField_eq cmd hc, takeWhile_commandField cmd hz]
 
 /-! ### payload structures -/
 
@@ -336,6 +361,7 @@ theorem serAddr_ok (wt : Bool) (a : NetAddr) (h : WFAddr a) :
     serAddr wt a = .ok (netAddr (!wt) a) := by
   obtain ⟨h1, h2, h3, h4, h5⟩ := h
   have hp : (a.protover ≥ CADDR_TIME_VERSION) = True := by rw [h1]; decide
+  have hp' : CADDR_TIME_VERSION ≤ a.protover := by rw [h1]; decide
   unfold serAddr netAddr packBE2
   rw [packU_ok 8 _ (by norm_num; omega), if_pos (show a.port < 256 ^ 2 by norm_num; omega)]
   cases wt
@@ -357,7 +383,7 @@ theorem deAddr_append (wt : Bool) (a : NetAddr) (rest : Bytes) (h : WFAddr a)
     simp only [Res.ok_bind]
     rw [serRead_append' 2 (beBytes 2 a.port) rest (by simp [beBytes]) (by decide)]
     simp only [Res.ok_bind, Res.pure_eq, beNat_beBytes2 _ h5]
-    cases a; simp_all [PROTO_VERSION]
+    cases a; simp_all [PROTO_VERSION, protoVersion]
   · have ht0 := ht rfl
     simp only [proto_ge, Bool.not_true, Bool.and_false, Bool.false_eq_true, if_false, List.nil_append,
       List.append_assoc, Res.pure_eq, Res.ok_bind]
@@ -367,7 +393,7 @@ theorem deAddr_append (wt : Bool) (a : NetAddr) (rest : Bytes) (h : WFAddr a)
     simp only [Res.ok_bind]
     rw [serRead_append' 2 (beBytes 2 a.port) rest (by simp [beBytes]) (by decide)]
     simp only [Res.ok_bind, beNat_beBytes2 _ h5]
-    cases a; simp_all [PROTO_VERSION]
+    cases a; simp_all [PROTO_VERSION, protoVersion]
 
 theorem serInv_ok (i : Inv) (h : WFInv i) : serInv i = .ok (invEntry i) := by
   obtain ⟨h1, h2, _⟩ := h
@@ -457,56 +483,94 @@ theorem optWF_iff {α} (P : α → Prop) (o : Option α) : optWF P o ↔ ∃ x, 
   cases o <;> simp [optWF]
 
 theorem serVersion_ok (v : VersionMsg) (h : WFVersion v) : serVersion v = .ok (versionPayload v) := by
-  obtain ⟨h1, h2, h3, h4, h5, ⟨h6, _⟩, g7, g8, g9, g10, h11⟩ := h
-  obtain ⟨fr, hfr, hfw, _⟩ := (optWF_iff _ _).mp g7
-  obtain ⟨n, hn, hn2⟩ := (optWF_iff _ _).mp g8
-  obtain ⟨s, hs, hs2⟩ := (optWF_iff _ _).mp g9
-  obtain ⟨ht, hh, hh1, hh2⟩ := (optWF_iff _ _).mp g10
+  obtain ⟨h1, h2, _, h3, h4, h5, ⟨h6, _⟩, g106, g209, g70001⟩ := h
   have := maxSize_lt
   unfold serVersion versionPayload
-  rw [hfr, hn, hs, hh]
-  have c1 : v.nVersion ≥ 106 := by omega
-  have c2 : v.nVersion ≥ 209 := by omega
-  have c3 : v.nVersion ≥ 70001 := by omega
-  simp [c1, c2, c3, optBytes, packI4_ok _ (show -(2 ^ 31 : Int) ≤ v.nVersion by omega) h2,
-    packU_ok 8 _ (show v.nServices < 256 ^ 8 by norm_num; omega), packI8_ok _ h4 h5,
-    serAddr_ok true _ h6, serAddr_ok true _ hfw,
-    packU_ok 8 _ (show n < 256 ^ 8 by norm_num; omega), serVarStr, serBytes_ok s (by omega),
-    packI4_ok _ hh1 hh2, packU_ok 1 _ (show v.fRelay < 256 ^ 1 by norm_num; omega)]
+  rw [packI4_ok _ h1 h2, packU_ok 8 _ (show v.nServices < 256 ^ 8 by norm_num; omega), packI8_ok _ h4 h5,
+    serAddr_ok true _ h6]
+  simp only [Res.ok_bind]
+  by_cases c1 : v.nVersion ≥ 106
+  · rw [if_pos c1] at g106
+    obtain ⟨g7, g8, g9⟩ := g106
+    obtain ⟨fr, hfr, hfw, _⟩ := (optWF_iff _ _).mp g7
+    obtain ⟨n, hn, hn2⟩ := (optWF_iff _ _).mp g8
+    obtain ⟨s, hs, hs2⟩ := (optWF_iff _ _).mp g9
+    rw [hfr, hn, hs]
+    by_cases c2 : v.nVersion ≥ 209
+    · rw [if_pos c2] at g209
+      obtain ⟨ht, hh, hh1, hh2⟩ := (optWF_iff _ _).mp g209
+      rw [hh]
+      by_cases c3 : v.nVersion ≥ 70001
+      · rw [if_pos c3] at g70001
+        simp [c1, c2, c3, optBytes, serAddr_ok true _ hfw, packU_ok 8 _ (show n < 256 ^ 8 by norm_num; omega),
+          serVarStr, serBytes_ok s (by omega), packI4_ok _ hh1 hh2,
+          packU_ok 1 _ (show v.fRelay < 256 ^ 1 by norm_num; omega)]
+      · simp [c1, c2, c3, optBytes, serAddr_ok true _ hfw, packU_ok 8 _ (show n < 256 ^ 8 by norm_num; omega),
+          serVarStr, serBytes_ok s (by omega), packI4_ok _ hh1 hh2]
+    · have c3 : ¬ v.nVersion ≥ 70001 := by omega
+      simp [c1, c2, c3, optBytes, serAddr_ok true _ hfw, packU_ok 8 _ (show n < 256 ^ 8 by norm_num; omega),
+        serVarStr, serBytes_ok s (by omega)]
+  · have c2 : ¬ v.nVersion ≥ 209 := by omega
+    have c3 : ¬ v.nVersion ≥ 70001 := by omega
+    simp [c1, c2, c3]
 
 theorem deVersion_append (v : VersionMsg) (rest : Bytes) (h : WFVersion v) :
     deVersion (versionPayload v ++ rest) = .ok (.version v, rest) := by
-  obtain ⟨h1, h2, h3, h4, h5, ⟨h6, h6t⟩, g7, g8, g9, g10, h11⟩ := h
-  obtain ⟨fr, hfr, hfw, hft⟩ := (optWF_iff _ _).mp g7
-  obtain ⟨n, hn, hn2⟩ := (optWF_iff _ _).mp g8
-  obtain ⟨s, hs, hs2⟩ := (optWF_iff _ _).mp g9
-  obtain ⟨ht, hh, hh1, hh2⟩ := (optWF_iff _ _).mp g10
-  have c0 : ¬ v.nVersion = 10300 := by omega
-  have c1 : v.nVersion ≥ 106 := by omega
-  have c2 : v.nVersion ≥ 209 := by omega
-  have c3 : v.nVersion ≥ 70001 := by omega
+  obtain ⟨h1, h2, c0, h3, h4, h5, h6, g106, g209, g70001⟩ := h
   unfold deVersion versionPayload
-  rw [hfr, hn, hs, hh]
-  simp only [c1, c2, c3, if_true, optBytes, List.append_assoc]
-  rw [readI4_append _ _ (by omega) h2]
-  simp only [Res.ok_bind, c0, if_false, c1, c2, c3, if_true]
+  simp only [List.append_assoc]
+  rw [readI4_append _ _ h1 h2]
+  simp only [Res.ok_bind, c0, if_false]
   rw [readU_append 8 _ _ (by decide) (by norm_num; omega)]
   simp only [Res.ok_bind]
   rw [readI8_append _ _ h4 h5]
   simp only [Res.ok_bind]
-  rw [show netAddr false v.addrTo = netAddr (!true) v.addrTo from rfl, deAddr_append true _ _ h6 (fun _ => h6t)]
+  rw [show netAddr false v.addrTo = netAddr (!true) v.addrTo from rfl,
+    deAddr_append true _ _ h6.1 (fun _ => h6.2)]
   simp only [Res.ok_bind]
-  rw [show netAddr false fr = netAddr (!true) fr from rfl, deAddr_append true _ _ hfw (fun _ => hft)]
-  simp only [Res.ok_bind]
-  rw [readU_append 8 _ _ (by decide) (by norm_num; omega)]
-  simp only [Res.ok_bind]
-  rw [deBytes_append _ _ hs2]
-  simp only [Res.ok_bind]
-  rw [readI4_append _ _ hh1 hh2]
-  simp only [Res.ok_bind, Res.pure_eq]
-  rw [readU_append 1 _ _ (by decide) (by norm_num; omega)]
-  simp only [Res.ok_bind]
-  cases v; simp_all
+  by_cases c1 : v.nVersion ≥ 106
+  · rw [if_pos c1] at g106
+    obtain ⟨g7, g8, g9⟩ := g106
+    obtain ⟨fr, hfr, hfw, hft⟩ := (optWF_iff _ _).mp g7
+    obtain ⟨n, hn, hn2⟩ := (optWF_iff _ _).mp g8
+    obtain ⟨s, hs, hs2⟩ := (optWF_iff _ _).mp g9
+    rw [hfr, hn, hs]
+    simp only [c1, if_true, optBytes, List.append_assoc]
+    rw [show netAddr false fr = netAddr (!true) fr from rfl, deAddr_append true _ _ hfw (fun _ => hft)]
+    simp only [Res.ok_bind]
+    rw [readU_append 8 _ _ (by decide) (by norm_num; omega)]
+    simp only [Res.ok_bind]
+    rw [deBytes_append _ _ hs2]
+    simp only [Res.ok_bind]
+    by_cases c2 : v.nVersion ≥ 209
+    · rw [if_pos c2] at g209
+      obtain ⟨ht, hh, hh1, hh2⟩ := (optWF_iff _ _).mp g209
+      rw [hh]
+      simp only [c2, if_true, optBytes, List.append_assoc]
+      rw [readI4_append _ _ hh1 hh2]
+      simp only [Res.ok_bind, Res.pure_eq]
+      by_cases c3 : v.nVersion ≥ 70001
+      · rw [if_pos c3] at g70001
+        simp only [c3, if_true]
+        rw [readU_append 1 _ _ (by decide) (by norm_num; omega)]
+        simp only [Res.ok_bind]
+        cases v; simp_all
+      · rw [if_neg c3] at g70001
+        simp only [c3, if_false, List.nil_append, Res.pure_eq, Res.ok_bind]
+        cases v; simp_all
+    · rw [if_neg c2] at g209
+      have c3 : ¬ v.nVersion ≥ 70001 := by omega
+      rw [if_neg c3] at g70001
+      simp only [c2, c3, if_false, List.nil_append, List.append_nil, Res.pure_eq, Res.ok_bind]
+      cases v; simp_all
+  · rw [if_neg c1] at g106
+    have c2 : ¬ v.nVersion ≥ 209 := by omega
+    have c3 : ¬ v.nVersion ≥ 70001 := by omega
+    rw [if_neg c2] at g209
+    rw [if_neg c3] at g70001
+    obtain ⟨g7, g8, g9⟩ := g106
+    simp only [c1, c2, c3, if_false, List.nil_append, List.append_nil, Res.pure_eq, Res.ok_bind]
+    cases v; simp_all
 
 theorem deAlert_append (m s rest : Bytes) (hm : m.length ≤ maxSize) (hs : s.length ≤ maxSize) :
     deAlert (varBytes m ++ varBytes s ++ rest) = .ok (.alert m s, rest) := by
@@ -762,7 +826,7 @@ theorem msgSer_ok (m : Msg) (h : WFMsg m) : msgSer m = .ok (payload m) := by
 
 /-- the `messagemap` entry of each type parses the Spec payload back, whatever follows it -/
 theorem payload_parse (m : Msg) (h : WFMsg m) :
-    ∃ p, msgDeser (command m) = some p ∧ ∀ rest, p (payload m ++ rest) = .ok (norm m, rest) := by
+    ∃ p, msgDeser (Spec.Msg.command m) = some p ∧ ∀ rest, p (payload m ++ rest) = .ok (norm m, rest) := by
   cases m with
   | version v => exact ⟨_, rfl, fun rest => deVersion_append v rest h⟩
   | verack => exact ⟨_, rfl, fun rest => rfl⟩
@@ -794,8 +858,8 @@ theorem payload_parse (m : Msg) (h : WFMsg m) :
   | reject m c r => exact ⟨_, rfl, fun rest => deReject_append m c r rest h.1 h.2.1 h.2.2⟩
   | mempool => exact ⟨_, rfl, fun rest => rfl⟩
 
-theorem command_props (m : Msg) : (command m).length ≤ 12 ∧ ∀ b ∈ command m, b ≠ 0 := by
-  cases m <;> (simp only [command]; decide)
+theorem command_props (m : Msg) : (Spec.Msg.command m).length ≤ 12 ∧ ∀ b ∈ Spec.Msg.command m, b ≠ 0 := by
+  cases m <;> (simp only [Spec.Msg.command]; decide)
 
 theorem msgSer_norm (m : Msg) : msgSer (norm m) = msgSer m := by
   cases m with
@@ -809,7 +873,7 @@ theorem msgSer_norm (m : Msg) : msgSer (norm m) = msgSer m := by
       rw [this]
   | _ => rfl
 
-theorem command_norm (m : Msg) : command (norm m) = command m := by
+theorem command_norm (m : Msg) : Model.Msg.command (norm m) = Model.Msg.command m := by
   cases m <;> rfl
 
 end BtcVerif
@@ -894,5 +958,112 @@ theorem parseAllAux_fuel (magic : Bytes) : ∀ (f1 f2 : Nat) (s : Bytes), s.leng
             have := streamDeserialize_ok_shorter magic s m r hsd
             simp only
             rw [ih f2 r (by omega) (by omega)]
+
+end BtcVerif
+
+namespace BtcVerif
+open Model.Wire Model.Msg
+
+/-- `parseAll` is the projection of the position-recording loop the driver prints -/
+theorem parseAllAux_eq_trace (magic : Bytes) : ∀ (fuel : Nat) (s : Bytes),
+    parseAllAux magic fuel s =
+      ((parseTraceAux magic fuel s).1.map Prod.fst, (parseTraceAux magic fuel s).2.map Prod.fst) := by
+  intro fuel
+  induction fuel with
+  | zero => intro s; rfl
+  | succ fuel ih =>
+    intro s
+    simp only [parseAllAux, parseTraceAux]
+    by_cases he : s.isEmpty = true
+    · simp [he]
+    · simp only [he, Bool.false_eq_true, if_false]
+      cases hsd : streamDeserialize magic s with
+      | mk out r =>
+        cases out with
+        | error e => rfl
+        | ok m =>
+          simp only
+          rw [ih r]
+          simp
+
+theorem frameAccepted_iff (magic s : Bytes) :
+    frameAccepted magic s = true ↔
+      (24 ≤ s.length ∧ s.take 4 = magic ∧ declaredLen s ≤ MAX_SIZE ∧ 24 + declaredLen s ≤ s.length ∧
+       (s.drop 20).take 4 = Model.Msg.checksum ((s.drop 24).take (declaredLen s))) := by
+  simp [frameAccepted, and_assoc]
+
+/-- an accepted frame goes to the dispatch on its command; everything else is a frame-level error -/
+theorem accepted_dispatch (magic s : Bytes) (h : frameAccepted magic s = true) :
+    streamDeserialize magic s =
+      dispatch (((s.drop 4).take 12).takeWhile (· ≠ 0)) ((s.drop 24).take (declaredLen s))
+        (s.drop (24 + declaredLen s)) := by
+  obtain ⟨h1, h2, h3, h4, h5⟩ := (frameAccepted_iff magic s).mp h
+  rw [streamDeserialize_unfold magic s h1]
+  have c2 : ¬ declaredLen s > MAX_SIZE := by omega
+  have c3 : ¬ s.length - 24 < declaredLen s := by omega
+  simp [h2, c2, c3, h5]
+
+theorem not_accepted_error (magic s : Bytes) (h : frameAccepted magic s = false) :
+    ∃ e r, streamDeserialize magic s = (.error e, r) ∧ (e = .trunc ∨ e = .valueerr ∨ e = .sererr) := by
+  by_cases hs : s.length < 24
+  · exact ⟨.trunc, [], streamDeserialize_short magic s hs, Or.inl rfl⟩
+  · rw [streamDeserialize_unfold magic s (by omega)]
+    by_cases c1 : s.take 4 ≠ magic
+    · exact ⟨.valueerr, _, by rw [if_pos c1], Or.inr (Or.inl rfl)⟩
+    · rw [if_neg c1]
+      by_cases c2 : declaredLen s > MAX_SIZE
+      · exact ⟨.sererr, _, by rw [if_pos c2], Or.inr (Or.inr rfl)⟩
+      · rw [if_neg c2]
+        by_cases c3 : s.length - 24 < declaredLen s
+        · exact ⟨.trunc, _, by rw [if_pos c3], Or.inl rfl⟩
+        · rw [if_neg c3]
+          by_cases c4 : (s.drop 20).take 4 ≠ Model.Msg.checksum ((s.drop 24).take (declaredLen s))
+          · exact ⟨.valueerr, _, by rw [if_pos c4], Or.inr (Or.inl rfl)⟩
+          · exfalso
+            have : frameAccepted magic s = true :=
+              (frameAccepted_iff magic s).mpr ⟨by omega, by simpa using c1, by omega, by omega, by simpa using c4⟩
+            rw [h] at this
+            exact absurd this (by decide)
+
+end BtcVerif
+
+namespace BtcVerif
+open Model.Wire Model.Msg
+
+theorem parseTraceAux_fuel (magic : Bytes) : ∀ (f1 f2 : Nat) (s : Bytes), s.length ≤ f1 → s.length ≤ f2 →
+    parseTraceAux magic f1 s = parseTraceAux magic f2 s := by
+  intro f1
+  induction f1 with
+  | zero =>
+    intro f2 s h1 _
+    have hs : s = [] := List.eq_nil_of_length_eq_zero (by omega)
+    subst hs
+    cases f2 <;> simp [parseTraceAux]
+  | succ f1 ih =>
+    intro f2 s h1 h2
+    cases f2 with
+    | zero =>
+      have hs : s = [] := List.eq_nil_of_length_eq_zero (by omega)
+      subst hs
+      simp [parseTraceAux]
+    | succ f2 =>
+      simp only [parseTraceAux]
+      by_cases he : s.isEmpty = true
+      · simp [he]
+      · simp only [he, Bool.false_eq_true, if_false]
+        cases hsd : streamDeserialize magic s with
+        | mk out r =>
+          cases out with
+          | error e => rfl
+          | ok m =>
+            have := streamDeserialize_ok_shorter magic s m r hsd
+            simp only
+            rw [ih f2 r (by omega) (by omega)]
+
+theorem streamTrace_norm (magic : Bytes) (m : Msg) (ms : List Msg) (tail : Bytes) :
+    Spec.Msg.streamTrace magic (m :: ms) tail =
+      (some (Spec.Msg.norm m), (ms.map (Spec.Msg.frameMsg magic)).flatten ++ tail) ::
+        Spec.Msg.streamTrace magic ms tail := by
+  cases m <;> rfl
 
 end BtcVerif
